@@ -307,11 +307,7 @@ func runConcurrent(vec J, out *Writer) {
 			}
 			j := job{name, in, dg(in)}
 			jobs[g] = append(jobs[g], j)
-			if !seen[name+"/"+j.id] {
-				seen[name+"/"+j.id] = true
-				k, d, _ := guarded(entries[name], []byte(in), 10)
-				out.Put(J{"ev": "base", "in": J{"k": "conc-base"}, "call": name, "input": j.id, "outcome": k + ":" + d})
-			}
+			seen[name+"/"+j.id] = true
 		}
 	}
 	type event struct {
@@ -353,6 +349,18 @@ func runConcurrent(vec J, out *Writer) {
 	}
 	close(start)
 	wg.Wait()
+	// baselines: every (call, input) pair alone, AFTER the concurrent phase, so that the goroutines hit the
+	// library in the state a fresh process has (lazily built caches and the like are still cold)
+	done := map[string]bool{}
+	for g := 0; g < ng; g++ {
+		for _, j := range jobs[g] {
+			if !done[j.call+"/"+j.id] {
+				done[j.call+"/"+j.id] = true
+				k, d, _ := guarded(entries[j.call], []byte(j.input), 10)
+				out.Put(J{"ev": "base", "in": J{"k": "conc-base"}, "call": j.call, "input": j.id, "outcome": k + ":" + d})
+			}
+		}
+	}
 	sort.Slice(events, func(a, b int) bool { return events[a].ticket < events[b].ticket })
 	for _, e := range events {
 		out.Put(e.rec)
